@@ -284,6 +284,17 @@ func c07Recover(c *c07ctx, S []int, pres string, layout []int, ops string) {
 						d["i"] = i
 						c.viol("RecoverPriPoly", size+"/wrong-eval", "evaluation of the recovered polynomial differs from the dealer's", d)
 					}
+					// the recovered polynomial as an object of its own (first success per job in each slice form)
+					if c.batteryDue("RecoverPriPoly", pres) {
+						bs := c07Bases(g, c.rng)
+						c.battery().pri("RecoverPriPoly", got, c.ref, []c07base{bs[(c.n+c.t+c.idx+len(layout))%len(bs)]})
+						intactPri("RecoverPriPoly")
+						// a value of its own: overwriting its coefficients must not reach the caller's shares
+						for _, x := range got.Coefficients() {
+							x.Add(x, g.Scalar().One())
+						}
+						intactPri("RecoverPriPoly(result overwritten)")
+					}
 				}
 			}
 		})
@@ -321,10 +332,43 @@ func c07Recover(c *c07ctx, S []int, pres string, layout []int, ops string) {
 						d["i"], d["why"] = i, why
 						c.viol("RecoverPubPoly", size+"/wrong-eval", "evaluation of the recovered public polynomial differs from the dealer's", d)
 					}
+					// as an object of its own; its base is not judged (RecoverPubPoly cannot know it), hence no Check
+					if c.batteryDue("RecoverPubPoly", pres) {
+						sp := c07SpecOver(g, c.ref, c07base{"recovered(base-unknown)", c.base, c.base})
+						sp.rp, sp.base = nil, nil
+						c.battery().pub("RecoverPubPoly", got, sp, 0)
+						intactPub("RecoverPubPoly")
+						_, gc := got.Info()
+						for _, x := range gc {
+							x.Add(x, g.Point().Base())
+						}
+						intactPub("RecoverPubPoly(result overwritten)")
+					}
 				}
 			}
 		})
 	}
+}
+
+// batteryDue: the derived-object battery runs on the first successful
+// recovery of a job in the n-slot form and on the first in any other form.
+func (c *c07ctx) batteryDue(op, pres string) bool {
+	k := op + "/other"
+	if pres == "slots" {
+		k = op + "/slots"
+	}
+	if c.batDone == nil {
+		c.batDone = map[string]bool{}
+	}
+	if c.batDone[k] {
+		return false
+	}
+	c.batDone[k] = true
+	return true
+}
+
+func (c *c07ctx) battery() *c07bat {
+	return &c07bat{r: c.r, g: c.g, rng: c.rng, n: c.n, ctx: c.desc("battery"), det: c.detail, light: c.light}
 }
 
 // c07OracleSelfTest cross-checks the three reference routes on subset S
